@@ -965,6 +965,9 @@ func (sc *Script) sleepAlive(d time.Duration) {
 			}
 		}
 		sc.settle()
+		// every gate window is instantaneous: whoever parked while the clients were being kept alive is let go before time passes
+		sc.w.g.ReleaseAll()
+		sc.settle()
 		step := min(slice, d)
 		sc.w.g.Sleep(step)
 		d -= step
